@@ -208,7 +208,7 @@ static void c05_common(const args_t *a, long c, rng_t *r, int which)
 		if (want_sample()) sample("c05l: %d sources, %zu model entries (%s): %zu derived queries x {get,get_prefix} + ranges on the merger source", f.nsrc, model->n, dupsort ? "dupsort" : "merge function", qs.n);
 		qset_free(&qs);
 	} else if (which == 1) {
-		if (model->n > 40) { for (int i = 0; i < 3; i++) suite_history(src, model, r, 100); STAT("c05x.family_too_large_for_product_ran_histories"); }
+		if (model->n > 30) { for (int i = 0; i < 3; i++) suite_history(src, model, r, 100); STAT("c05x.family_too_large_for_product_ran_histories"); }
 		else if (model->n >= 3) {
 			bspec_t b[5]; size_t nb = 0; memset(b, 0, sizeof b);
 			b[nb++].kind = IK_ITER;
